@@ -10,3 +10,244 @@ def run(ctx):
 
 def extra(ctx, res):
     pass
+
+
+# ---------------------------------------------------------------------------------------------
+# Generator-level rules (hold for ALL derive inputs): C07.G1 alignment of the zipped vectors,
+# C07.G2 who is renamed by which rename_all, C07.G3 decision table of key_name_for_ident.
+def extra(ctx, res):  # noqa: F811
+    from analysis import View, strip_refs, erase_generics, term_mentions
+    from lin import Finding
+    from loc import canon, fmt, call_name
+    import p_c13
+
+    crate = ctx.libcrate("deserr_internal")
+
+    def body(path):
+        for b in crate.bodies:
+            if b.path == path:
+                return b
+        return None
+
+    def fnd(rule, v, what, bb=None, detail=""):
+        at = v.blocks[bb]["term"].get("at", "") if bb is not None else v.b.span
+        return Finding(rule, v.b.path, what, at, detail)
+
+    def closure_returns(path):
+        b = body(path)
+        if b is None:
+            return None
+        cv = View(b)
+        for bb in cv.reach:
+            for st in cv.blocks[bb]["stmts"]:
+                if st["k"] == "assign" and st["place"]["l"] == 0 and not st["place"]["p"]:
+                    return cv, cv.origin_rv(st["rv"], bb)
+        return cv, None
+
+    # ---------------------------------------------------------------- G1
+    fs = []
+    nf = body("parse_type::NamedFieldsInfo::parse")
+    if nf is None:
+        res.add("C07.G1", 1, [Finding("C07.G1", "NamedFieldsInfo::parse", "not found", "")])
+        return
+    v = View(nf)
+    sorts = [(bb, c) for bb, c in v.calls() if c.fn is not None and c.name and c.name.startswith("sort")]
+    if len(sorts) != 1:
+        fs.append(fnd("C07.G1", v, "expected exactly one sort of the fields (non-skipped first), found %d" % len(sorts)))
+    else:
+        sb, sc = sorts[0]
+        if sc.name != "sort_by_key":
+            fs.append(fnd("C07.G1", v, "fields are sorted with %s: only the stable sort_by_key keeps the non-skipped fields in declaration order" % sc.name, sb))
+        clo = strip_refs(v.origin(v.blocks[sb]["term"]["args"][1]))
+        ok = False
+        if clo[0] == "agg" and clo[1] == "closure":
+            r = closure_returns(clo[3])
+            if r and r[1] is not None:
+                t = strip_refs(r[1])
+                ok = t[0] == "field" and t[3] == "skipped" and t[1][0] == "field" and t[1][3] == "1" and strip_refs(t[1][1]) == ("param", 2)
+        if not ok:
+            fs.append(fnd("C07.G1", v, "the sort key is not the field's own `skipped` flag (false < true)", sb))
+        sorted_vec = strip_refs(canon(v, v.origin(v.blocks[sb]["term"]["args"][0])))
+        # second pass: the same vector filtered by !skipped
+        flt = [(bb, c) for bb, c in v.calls() if c.fn is not None and c.name == "filter" and c.trait and erase_generics(c.trait) == "std::iter::Iterator"]
+        okf = False
+        for fb, fc in flt:
+            t = canon(v, v.origin_call(fb))
+            clo2 = strip_refs(t[3][1]) if len(t[3]) > 1 else None
+            if clo2 and clo2[0] == "agg" and clo2[1] == "closure":
+                r = closure_returns(clo2[3])
+                if r and r[1] is not None:
+                    tt = r[1]
+                    if tt[0] == "unop" and tt[1] == "Not":
+                        x = strip_refs(tt[2])
+                        if x[0] == "field" and x[3] == "skipped" and x[1][0] == "field" and x[1][3] == "1":
+                            okf = True
+        if not okf:
+            fs.append(fnd("C07.G1", v, "the second pass (keys, error types, conversions) does not run over exactly the non-skipped fields of the same sorted vector"))
+        # every push onto the zipped vectors is unconditional inside its loop: one push per iteration
+        loops = v.loops()
+        for bb, c in v.calls():
+            if c.fn is not None and c.base() == "std::vec::Vec::push":
+                tgt = strip_refs(v.origin(v.blocks[bb]["term"]["args"][0]))
+                name = v.b.lname(tgt[1]) if tgt[0] == "multi" else None
+                if tgt[0] == "call":
+                    for l in range(len(v.b.locals)):
+                        wd = v.whole_defs(l)
+                        if len(wd) == 1 and wd[0][0] == "call" and wd[0][1] == tgt[1]:
+                            name = v.b.lname(l)
+                if name not in ("field_names", "field_tys", "key_names", "field_defaults", "field_errs", "missing_field_errors", "field_from_fns",
+                                "field_from_errors", "field_maps", "needs_predicate"):
+                    continue
+                lp = [(h, bd) for h, bd in loops if bb in bd]
+                if not lp:
+                    fs.append(fnd("C07.G1", v, "`%s` is pushed outside the per-field loops" % name, bb))
+                    continue
+                h, bd = min(lp, key=lambda x: len(x[1]))
+                # unconditional: the push block lies on every path from the loop's item edge back to the header
+                seen = set()
+                st = [s for s in v.succ[h] if s in bd]
+                # successors of the header's `next` switch: the Some edge
+                skipped = False
+                work = list(st)
+                while work:
+                    x = work.pop()
+                    if x in seen or x == bb or x not in bd:
+                        continue
+                    seen.add(x)
+                    if x == h:
+                        continue
+                    for y in v.succ[x]:
+                        if y == h:
+                            # reached the back edge without passing the push: only legal through `?` error returns (which leave the loop)
+                            skipped = True
+                        work.append(y)
+                if skipped:
+                    fs.append(fnd("C07.G1", v, "`%s` is not pushed exactly once per field (the zipped vectors can get out of step)" % name, bb))
+    res.add("C07.G1", 4, fs)
+
+    # ---------------------------------------------------------------- G2
+    fs = []
+    # fields: key_name_for_ident(field ident, data_attrs.rename_all, field rename)
+    kc = [bb for bb, c in v.calls() if c.fn is not None and c.path == "parse_type::key_name_for_ident"]
+    if len(kc) != 1:
+        fs.append(fnd("C07.G2", v, "expected one key_name_for_ident call for fields"))
+    else:
+        a = [canon(v, v.origin(x)) for x in v.blocks[kc[0]]["term"]["args"]]
+        ok0 = term_mentions(a[0], lambda t: t[0] == "field" and t[3] == "ident") or term_mentions(a[0], lambda t: t[0] == "call" and (call_name(v, t) or "").endswith("to_string"))
+        ok1 = term_mentions(a[1], lambda t: t[0] == "field" and t[3] == "rename_all" and strip_refs(t[1]) == ("param", 2))
+        ok2 = term_mentions(a[2], lambda t: t[0] == "field" and t[3] == "rename")
+        if not (ok0 and ok1 and ok2):
+            fs.append(fnd("C07.G2", v, "a field's key is not computed from (its identifier, the rename_all of the attributes it is parsed under, its own rename)", kc[0]))
+    dp = body("parse_type::DerivedTypeInfo::parse")
+    dv = View(dp)
+    kc = [bb for bb, c in dv.calls() if c.fn is not None and c.path == "parse_type::key_name_for_ident"]
+    mv = [bb for bb, c in dv.calls() if c.fn is not None and c.path == "attribute_parser::ContainerAttributesInfo::merge_variant"]
+    rv_ = [bb for bb, c in dv.calls() if c.fn is not None and c.path == "attribute_parser::read_deserr_variant_attributes"]
+    rc_ = [bb for bb, c in dv.calls() if c.fn is not None and c.path == "attribute_parser::read_deserr_container_attributes"]
+    np_ = [bb for bb, c in dv.calls() if c.fn is not None and c.path == "parse_type::NamedFieldsInfo::parse"]
+    if len(kc) != 1 or len(mv) != 1 or len(rv_) != 1 or len(rc_) != 1:
+        fs.append(fnd("C07.G2", dv, "cannot find the variant key / merge_variant call sites"))
+    else:
+        a = [canon(dv, dv.origin(x)) for x in dv.blocks[kc[0]]["term"]["args"]]
+        # variant key: (variant ident, CONTAINER rename_all, variant rename)
+        ok1 = term_mentions(a[1], lambda t: t[0] == "field" and t[3] == "rename_all") and term_mentions(a[1], lambda t: t[0] == "call" and t[1] == rc_[0]) \
+            and not term_mentions(a[1], lambda t: t[0] == "call" and t[1] == rv_[0])
+        ok2 = term_mentions(a[2], lambda t: t[0] == "call" and t[1] == rv_[0])
+        if not (ok1 and ok2):
+            fs.append(fnd("C07.G2", dv, "a variant's name is not computed from (its identifier, the container's rename_all, its own rename)", kc[0]))
+        # the attributes handed to the variant's fields: a fresh clone of the container's, merged with this variant's
+        m = dv.blocks[mv[0]]["term"]
+        tgt = strip_refs(canon(dv, dv.origin(m["args"][0])))
+        src = canon(dv, dv.origin(m["args"][1]))
+        fresh = False
+        tl = tgt[1] if tgt[0] == "multi" else None
+        clone_bb = None
+        if tgt[0] == "call" and (call_name(dv, tgt) or "").endswith("Clone::clone"):
+            clone_bb = tgt[1]
+        if tl is not None:
+            for d in dv.whole_defs(tl):
+                if d[0] == "call" and (call_name(dv, ("call", d[1])) or "").endswith("Clone::clone"):
+                    clone_bb = d[1]
+        if clone_bb is not None:
+            # the clone happens in the same loop iteration as the merge (not hoisted out of the per-variant loop)
+            lps = [(h, bd) for h, bd in dv.loops() if mv[0] in bd]
+            inner = min(lps, key=lambda x: len(x[1])) if lps else None
+            cl_src = canon(dv, dv.origin(dv.blocks[clone_bb]["term"]["args"][0]))
+            fresh = inner is not None and clone_bb in inner[1] and term_mentions(cl_src, lambda t: t[0] == "call" and t[1] == rc_[0])
+        if not fresh:
+            fs.append(fnd("C07.G2", dv, "the attributes used for a variant's fields are not a fresh copy of the container's attributes made for that variant (state can leak between variants)", mv[0]))
+        if not term_mentions(src, lambda t: t[0] == "call" and t[1] == rv_[0]):
+            fs.append(fnd("C07.G2", dv, "merge_variant is not given this variant's own attributes", mv[0]))
+        # NamedFieldsInfo::parse for variants receives the merged object
+        okp = False
+        for bb in np_:
+            a1 = strip_refs(canon(dv, dv.origin(dv.blocks[bb]["term"]["args"][1])))
+            if a1 == tgt:
+                okp = True
+        if not okp:
+            fs.append(fnd("C07.G2", dv, "a variant's fields are not parsed under the merged (container + variant) attributes"))
+    mb = body("attribute_parser::ContainerAttributesInfo::merge_variant")
+    if mb is None:
+        fs.append(Finding("C07.G2", "merge_variant", "not found", ""))
+    else:
+        mvv = View(mb)
+        import p_c16
+        wr = p_c16.writes_to(mvv, 1, True)
+        okw = False
+        for bb, f, st in wr:
+            if f == "rename_all":
+                t = canon(mvv, mvv.origin_rv(st["rv"], bb))
+                # self.rename_all = other.rename_all.clone()   (assignment, not `or`)
+                if t[0] == "call" and (call_name(mvv, t) or "").endswith("Clone::clone"):
+                    x = strip_refs(t[3][0])
+                    okw = x[0] == "field" and x[3] == "rename_all" and strip_refs(x[1]) == ("param", 2)
+        if not okw or any(mvv.blocks[x]["term"]["k"] == "switch" for x in mvv.reach):
+            fs.append(fnd("C07.G2", mvv, "merge_variant does not unconditionally replace rename_all by the variant's own (a variant without rename_all would inherit someone else's)"))
+    res.add("C07.G2", 6, fs)
+
+    # ---------------------------------------------------------------- G3
+    fs = []
+    kb = body("parse_type::key_name_for_ident")
+    if kb is None:
+        fs.append(Finding("C07.G3", "key_name_for_ident", "not found", ""))
+    else:
+        kv = View(kb)
+        info = kv.switch_info(0)
+        ok = False
+        if info and info["kind"] == "discr" and info["place"]["l"] == 3:
+            st = kv.variant_target(info, "Some")
+            nt = kv.variant_target(info, "None")
+            if st is not None and nt is not None:
+                s_only = kv.reachable(st) - kv.reachable(nt)
+                rs = p_c13.results_in(kv, s_only)
+                ok_some = len(rs) == 1 and rs[0][1][0] == "call" and (call_name(kv, rs[0][1]) or "").endswith("to_string") and \
+                    strip_refs(rs[0][1][3][0]) == ("field", ("param", 3), "Some", "0")
+                # None: dispatch on rename_all
+                n_only = kv.reachable(nt) - kv.reachable(st)
+                sw2 = [bb for bb in sorted(n_only) if kv.switch_info(bb) and kv.switch_info(bb)["kind"] == "discr" and kv.switch_info(bb)["place"]["l"] == 2 and not kv.switch_info(bb)["place"]["p"]]
+                ok_none = False
+                if sw2:
+                    i2 = kv.switch_info(sw2[0])
+                    nn = kv.variant_target(i2, "None")
+                    ss = kv.variant_target(i2, "Some")
+                    if nn is not None and ss is not None:
+                        r0 = p_c13.results_in(kv, kv.reachable(nn) - kv.reachable(ss))
+                        ident_ok = len(r0) == 1 and strip_refs(r0[0][1]) == ("param", 1)
+                        sw3 = [bb for bb in sorted(kv.reachable(ss) - kv.reachable(nn)) if kv.switch_info(bb) and kv.switch_info(bb)["kind"] == "discr"
+                               and (kv.switch_info(bb).get("adt") or "").endswith("RenameAll")]
+                        tab = {}
+                        if sw3:
+                            i3 = kv.switch_info(sw3[0])
+                            arms = p_c13.arm_regions(kv, i3)
+                            for var in ("CamelCase", "LowerCase"):
+                                r = p_c13.results_in(kv, arms.get(var, set()))
+                                if len(r) == 1 and r[0][1][0] == "call":
+                                    tab[var] = (call_name(kv, r[0][1]), r[0][1])
+                        camel_ok = "CamelCase" in tab and tab["CamelCase"][0].endswith("Casing::to_case") and strip_refs(tab["CamelCase"][1][3][0]) == ("param", 1) and \
+                            tab["CamelCase"][1][3][1][0] == "agg" and tab["CamelCase"][1][3][1][4] == "Camel"
+                        lower_ok = "LowerCase" in tab and tab["LowerCase"][0].endswith("to_lowercase") and strip_refs(tab["LowerCase"][1][3][0]) == ("param", 1)
+                        ok_none = ident_ok and camel_ok and lower_ok
+                ok = ok_some and ok_none
+        if not ok:
+            fs.append(fnd("C07.G3", kv, "key_name_for_ident is not {rename: that name; else camelCase: to_case(ident, Camel); lowercase: to_lowercase(ident); none: ident}"))
+    res.add("C07.G3", 4, fs)
